@@ -25,6 +25,7 @@ import (
 	"sort"
 	"strings"
 	"sync"
+	"syscall"
 
 	"github.com/fsnotify/fsnotify"
 	oci "github.com/opencontainers/runtime-spec/specs-go"
@@ -45,6 +46,9 @@ type Cache struct {
 
 	autoRefresh bool
 	watch       *watch
+	// incomplete is set if the last refresh ran out of file descriptors:
+	// the cache is then refreshed again by the next query.
+	incomplete bool
 }
 
 // WithAutoRefresh returns an option to control automatic Cache refresh.
@@ -146,6 +150,7 @@ func (c *Cache) refresh() error {
 		devices    = map[string]*Device{}
 		conflicts  = map[string]struct{}{}
 		specErrors = map[string][]error{}
+		incomplete = false
 	)
 
 	// collect errors per spec file path and once globally
@@ -183,6 +188,9 @@ func (c *Cache) refresh() error {
 		}
 		path = filepath.Clean(path)
 		if err != nil {
+			if errors.Is(err, syscall.EMFILE) || errors.Is(err, syscall.ENFILE) {
+				incomplete = true
+			}
 			collectError(fmt.Errorf("failed to load CDI Spec %w", err), path)
 			return nil
 		}
@@ -211,6 +219,7 @@ func (c *Cache) refresh() error {
 	c.specs = specs
 	c.devices = devices
 	c.errors = specErrors
+	c.incomplete = incomplete
 
 	errs := []error{}
 	for _, specErrs := range specErrors {
@@ -224,7 +233,9 @@ func (c *Cache) refreshIfRequired(force bool) (bool, error) {
 	// We need to refresh if
 	// - it's forced by an explicit call to Refresh() in manual mode
 	// - a missing Spec dir appears (added to watch) in auto-refresh mode
-	if force || (c.autoRefresh && c.watch.update(c.dirErrors)) {
+	// - the last refresh was cut short by a lack of file descriptors; no
+	//   file-system event will tell us when it is worth trying again
+	if force || (c.autoRefresh && (c.watch.update(c.dirErrors) || c.incomplete)) {
 		return true, c.refresh()
 	}
 	return false, nil
